@@ -4,6 +4,7 @@ from __future__ import annotations
 import ast
 import re
 
+from .. import efg as _efg
 from ..pyfacts import AnalysisError, src
 from ..genfacts import GenFacts, GEN, STDLIB
 from ..asmtext import AsmText, parse_offset
@@ -277,7 +278,7 @@ def run(repo, chk):
         arm = F.arm_of(ev, len(ev) - 1)
         if not arm.startswith('ReturnStatement') or p.outcome != 'return':
             continue
-        conds = {e.text: e.truth for e in ev if e.kind == 'cond'}
+        conds = _efg.Conds(ev)
         if conds.get('stmt.value is not None') is not True:
             continue
         n_ret += 1
@@ -400,7 +401,7 @@ def run(repo, chk):
     for p, ev in gf.inlined('eval_expr'):
         arm = F.arm_of(ev, len(ev) - 1)
         if arm.startswith('VariableLookup') and p.outcome != 'raise':
-            conds = {e.text: e.truth for e in ev if e.kind == 'cond'}
+            conds = _efg.Conds(ev)
             copied = any(e.kind == 'sub' and e.func == '.get' and src(e.recv) == 'access' for e in ev)
             volatile = conds.get('keep') and conds.get('is_global') and conds.get('expr.var.const') is False
             if 'keep' in conds:
